@@ -147,6 +147,58 @@ let rec dump = function
   | YMap l -> "M{" ^ String.concat "," (List.map (fun (k, v) -> dump k ^ "=" ^ dump v) l) ^ "}"
   | YBad -> "X"
 
+(* ---------- C08 ---------- *)
+let z_of_hex_digits h =
+  (* h: hex digits, msb first -> Z (non-negative) *)
+  let acc = ref None in   (* positive option *)
+  String.iter (fun ch ->
+    let v = if ch >= '0' && ch <= '9' then Char.code ch - 48 else if ch >= 'a' && ch <= 'f' then Char.code ch - 87 else failwith "hex" in
+    for k = 3 downto 0 do
+      let bit = (v lsr k) land 1 in
+      acc := (match !acc with
+              | None -> if bit = 1 then Some XH else None
+              | Some p -> Some (if bit = 1 then XI p else XO p))
+    done) h;
+  match !acc with None -> Z0 | Some p -> Zpos p
+let z_of_hex s =
+  (* [-]0x<digits> *)
+  if starts s "-0x" then (match z_of_hex_digits (after s "-0x") with Z0 -> Z0 | Zpos p -> Zneg p | z -> z)
+  else if starts s "0x" then z_of_hex_digits (after s "0x") else failwith "zhex"
+let core_prefix = of_cps "116.97.103.58.121.97.109.108.46.111.114.103.44.50.48.48.50.58"
+let str_of s = List.map (fun c -> n_of_int (Char.code c)) (List.init (String.length s) (String.get s))
+let resolve_configs = [ (true, None); (true, Some (core_prefix, str_of "int")); (true, Some (core_prefix, str_of "float"));
+  (true, Some (core_prefix, str_of "bool")); (true, Some (core_prefix, str_of "null")); (true, Some (core_prefix, str_of "str"));
+  (true, Some (str_of "!", str_of "foo")); (false, None); (false, None); (false, None); (false, None);
+  (false, Some (core_prefix, str_of "int")); (true, Some (core_prefix, str_of "binary")) ]
+let sdump = function
+  | None -> "X"
+  | Some s -> dump (YVal s)
+let parse_iscalar d =
+  if d = "X" then None
+  else if d = "N" then Some INull
+  else if d = "B1" then Some (IBool true) else if d = "B0" then Some (IBool false)
+  else if starts d "I" then Some (IInt (z_of_hex (after d "I")))
+  else if starts d "F" then Some (IFloat (z_of_hex_digits (after d "F")))
+  else if starts d "S" then Some (IStr (of_cps (after d "S")))
+  else failwith ("iscalar " ^ d)
+let c08_oracle line =
+  (* <cps-with-spaces>#<r0|r1|...;flags> *)
+  let i = String.index line '#' in
+  let s = decode_case (String.sub line 0 i) in
+  let rest = String.sub line (i + 1) (String.length line - i - 1) in
+  let body = match String.rindex_opt rest ';' with Some j -> String.sub rest 0 j | None -> rest in
+  let rs = Array.of_list (List.map parse_iscalar (String.split_on_char '|' body)) in
+  let b x = if x then "1" else "0" in
+  let untagged = match rs.(0) with Some u -> u | None -> IStr [] in
+  let bad0 = rs.(0) = None in
+  let tagged k sfx = b (not bad0 && c08_impl_tagged_ok (str_of sfx) s untagged rs.(k)) in
+  String.concat "" [
+    b (not bad0 && c08_impl_untagged_ok s untagged);
+    tagged 1 "int"; tagged 2 "float"; tagged 3 "bool"; tagged 4 "null"; tagged 5 "str";
+    b (c08_impl_string_ok s rs.(6)); b (c08_impl_string_ok s rs.(7)); b (c08_impl_string_ok s rs.(8));
+    b (c08_impl_string_ok s rs.(9)); b (c08_impl_string_ok s rs.(10)); b (c08_impl_string_ok s rs.(11));
+    tagged 12 "binary" ]
+
 let () =
   let mode = Sys.argv.(1) in
   let arg i = if Array.length Sys.argv > i then Sys.argv.(i) else "" in
@@ -167,6 +219,10 @@ let () =
     | "grammar" ->
         let (a, b) = grammar_verdict (parse_event_line line) in
         Printf.sprintf "%d %d" (if a then 1 else 0) (if b then 1 else 0)
+    | "resolve" ->
+        let s = decode_case line in
+        String.concat "|" (List.map (fun (plain, tg) -> sdump (parse_from_cow_and_metadata s plain tg)) resolve_configs) ^ ";ok"
+    | "c08-oracle" -> c08_oracle line
     | "load" ->
         (match run_load (decode_case line) with
          | LDocs d -> "OK " ^ String.concat " ; " (List.map dump d)
